@@ -47,6 +47,7 @@ static int c14WaitCalls = 0;
 static int c14RawListenFd = -1;
 static uint16 c14RawPort = 0;
 static bool c14InRun = false;
+static bool c14ForceKeepAlive = false;   // after `ofail`: SO_KEEPALIVE stays enabled (the failing option must be applied)
 
 static unsigned long c14Callbacks = 0;    // callbacks since the last op line
 static void c14LogAdd(const char* fmt, int a, int b)
@@ -242,6 +243,8 @@ static bool c14DoAct(const char* act, C14Obj* newc)
     {
       for(int i = 0; i < ipNFailConnect; ++i)
         if(ipFailConnectFd[i] == o->fd) { ipFailConnectFd[i] = ipFailConnectFd[--ipNFailConnect]; break; }
+      for(int i = 0; i < ipNFailOpt; ++i)
+        if(ipFailOptFd[i] == o->fd) { ipFailOptFd[i] = ipFailOptFd[--ipNFailOpt]; break; }
       c14Srv->remove(*(Server::Establisher*)o->ptr);
       o->alive = false;
     }
@@ -408,6 +411,9 @@ static void c14Teardown()
   c14NextAuto = 1000;
   c14LogLen = 0;
   ipNFailConnect = 0;
+  ipNFailOpt = 0;
+  c14ForceKeepAlive = false;
+  ipFailNextBind = ipFailNextListen = ipFailNextConnect = ipFailNextSockopt = false;
   if(c14RawListenFd >= 0) close(c14RawListenFd);
   c14RawListenFd = -1;
 }
@@ -475,7 +481,7 @@ static bool c14Op(HxLine& l)
   bool known = !strcmp(op, "script") || !strcmp(op, "act") || !strcmp(op, "mkpair") || !strcmp(op, "mklisten") ||
                !strcmp(op, "mkconn") || !strcmp(op, "psend") || !strcmp(op, "pclose") || !strcmp(op, "dial") ||
                !strcmp(op, "adv") || !strcmp(op, "run") || !strcmp(op, "cfail") || !strcmp(op, "runmt") ||
-               !strcmp(op, "clear") || !strcmp(op, "failmk") || !strcmp(op, "opt");
+               !strcmp(op, "clear") || !strcmp(op, "failmk") || !strcmp(op, "opt") || !strcmp(op, "ofail");
   if(!known) return false;
   if(!c14Srv) c14Setup();
   c14Callbacks = 0;
@@ -492,6 +498,7 @@ static bool c14Op(HxLine& l)
   { // Server::clear() outside run(): every object is destroyed, no callback may follow
     ipMaskReset();
     ipNFailConnect = 0;
+    ipNFailOpt = 0;
     c14Srv->clear();
     for(int i = 0; i < c14NObjs; ++i) c14Objs[i]->alive = false;
     c14Observe("ok");
@@ -502,12 +509,18 @@ static bool c14Op(HxLine& l)
     void* r = (void*)1;
     Socket other;
     C14Obj cb;
-    ipFailNextSocket = true;
-    if(!strcmp(l.tok[1], "pair")) r = c14Srv->pair(cb, other);
-    else if(!strcmp(l.tok[1], "listen")) r = c14Srv->listen(Socket::loopbackAddress, 0, cb);
-    else if(!strcmp(l.tok[1], "connect")) r = c14Srv->connect(Socket::loopbackAddress, 1, cb);
-    else { ipFailNextSocket = false; printf("bad-op"); hxEndLine(); return true; }
-    if(ipFailNextSocket) { ipFailNextSocket = false; ipFail("the library did not call socket()/socketpair()"); }
+    const char* k = l.tok[1];
+    bool* flag = &ipFailNextSocket;
+    if(!strcmp(k, "bind")) flag = &ipFailNextBind;
+    else if(!strcmp(k, "listencall")) flag = &ipFailNextListen;
+    else if(!strcmp(k, "connectcall")) flag = &ipFailNextConnect;
+    else if(!strcmp(k, "pairopt")) { flag = &ipFailNextSockopt; c14ForceKeepAlive = true; c14Srv->setKeepAlive(true); }
+    *flag = true;
+    if(!strcmp(k, "pair") || !strcmp(k, "pairopt")) r = c14Srv->pair(cb, other);
+    else if(!strcmp(k, "listen") || !strcmp(k, "bind") || !strcmp(k, "listencall")) r = c14Srv->listen(Socket::loopbackAddress, 0, cb);
+    else if(!strcmp(k, "connect") || !strcmp(k, "connectcall")) r = c14Srv->connect(Socket::loopbackAddress, 1, cb);
+    else { *flag = false; printf("bad-op"); hxEndLine(); return true; }
+    if(*flag) { *flag = false; ipFail("the library did not make the call that was to fail"); }
     if(r) ipFail("creation succeeded although socket() failed");
     if(other.s != -1) ipFail("pair() left the other socket open");
     c14Observe("ok");
@@ -516,7 +529,7 @@ static bool c14Op(HxLine& l)
   if(hxIs(l, "opt", 2))
   { // socket options of the server: applied to sockets created later; no effect on the event loop
     if(!c14Num(l.tok[2], a)) { printf("bad-op"); hxEndLine(); return true; }
-    if(!strcmp(l.tok[1], "keepalive")) c14Srv->setKeepAlive(a != 0);
+    if(!strcmp(l.tok[1], "keepalive")) c14Srv->setKeepAlive(a != 0 || c14ForceKeepAlive);
     else if(!strcmp(l.tok[1], "sndbuf")) c14Srv->setSendBufferSize((int)a);
     else if(!strcmp(l.tok[1], "rcvbuf")) c14Srv->setReceiveBufferSize((int)a);
     else if(!strcmp(l.tok[1], "reuse")) c14Srv->setReuseAddress(a != 0);
@@ -533,10 +546,22 @@ static bool c14Op(HxLine& l)
     c14Observe("ok");
     return true;
   }
-  if(hxIs(l, "mkpair", 1) || hxIs(l, "mklisten", 1) || hxIs(l, "mkconn", 1) || hxIs(l, "pclose", 1) || hxIs(l, "dial", 1) || hxIs(l, "adv", 1) || hxIs(l, "cfail", 1))
+  if(hxIs(l, "mkpair", 1) || hxIs(l, "mklisten", 1) || hxIs(l, "mkconn", 1) || hxIs(l, "pclose", 1) || hxIs(l, "dial", 1) || hxIs(l, "adv", 1) || hxIs(l, "cfail", 1) || hxIs(l, "ofail", 1))
   {
     if(!c14Num(l.tok[1], a)) { printf("bad-op"); hxEndLine(); return true; }
     if(!strcmp(op, "adv")) ipNow += a;
+    else if(!strcmp(op, "ofail"))
+    { // the connect event of establisher <id> ends in onAbolished because a socket option cannot be applied (Server.cpp 396-400)
+      c14ForceKeepAlive = true;
+      c14Srv->setKeepAlive(true);
+      if(C14Obj* o = c14Live((int)a, C14_EST))
+        if(o->fd >= 0 && ipNFailOpt < 16)
+        {
+          bool dup = false;
+          for(int i = 0; i < ipNFailOpt; ++i) if(ipFailOptFd[i] == o->fd) dup = true;
+          if(!dup) ipFailOptFd[ipNFailOpt++] = o->fd;
+        }
+    }
     else if(!strcmp(op, "cfail"))
     {
       if(C14Obj* o = c14Live((int)a, C14_EST))
